@@ -340,12 +340,14 @@ def _pairs_worker(ctx, arg):
     """build(f, d0); set-config(m1); evaluate(part1, frame1); set-config(m2); evaluate(part2, frame2) for every
     formula, every pair of modes, every pair of frames and parts: the second result must not depend on the first."""
     shard, n, quick = arg
-    frames_ = [0, 2, 3] if quick else list(range(len(FRAMES)))
+    frames_ = list(range(len(FRAMES)))
     parts = (("common", "common"), ("group", "group")) if quick else (("common", "common"), ("group", "group"), ("common", "group"), ("group", "common"))
     i = 0
     for fi in range(len(FORMULAS)):
         for m1, m2 in itertools.product(MODES, repeat=2):
             for d1, d2 in itertools.product(frames_, repeat=2):
+                if quick and 2 not in (d1, d2) and (m1, m2) != ("error", "error"):
+                    continue  # the mode only matters for the frame with unseen levels
                 for p1, p2 in parts:
                     i += 1
                     if i % n != shard:
@@ -457,7 +459,7 @@ def run(ctx):
     ns2 = core.NPROC
     ctx.parallel(_pairs_worker, [(k, ns2, quick) for k in range(ns2)], nproc=ns2)
     ctx.exhaustive["build; set-config; evaluate; set-config; evaluate over 8 formulas x 9 mode pairs x frame pairs x part pairs"
-                   + (" (quick: 3 frames, same part twice)" if quick else " (4 frames, all part pairs)")] = {"complete": True}
+                   + (" (quick: same part twice; all mode pairs only where the frame with unseen levels takes part)" if quick else " (all part pairs)")] = {"complete": True}
     ctx.parallel(_build_pairs_worker, [(k, ns2) for k in range(ns2)], nproc=ns2)
     ctx.exhaustive["build A; build B; evaluate A; evaluate B; evaluate-group A; rebuild A over all ordered pairs of formulas x 3 frame pairs"] = {"complete": True}
     per = 50 if quick else 400
